@@ -530,6 +530,111 @@ fn stream_vecformat(rep: &mut Report, m: &mut Model, root: &Rng, scale: u64) {
     }
 }
 
+// ------------------------------------------------------------------ stream: request-size limits of decoded messages
+// message_validation.rs CompositeValidator on a DECODED BlockRequest / SnapshotRequest (the message really goes
+// through LengthDelimitedCodec encode -> decode_payload first): the verdict is compared with Codec/Limits.lean and
+// judged by the property itself — an accepted request asks for at most the configured number of blocks / bytes
+// (true arithmetic, no wrap-around), and the validator never panics on any pair of u64 heights.
+fn stream_limits(rep: &mut Report, m: &mut Model, root: &Rng, scale: u64) {
+    use tensor_chain::message_validation::{CompositeValidator, MessageValidationConfig, MessageValidator};
+    use tensor_chain::network::SnapshotRequest;
+    let codec = LengthDelimitedCodec::new(1 << 20);
+    let through_wire = |msg: &Message| -> Option<Message> {
+        let frame = codec.encode(msg).ok()?;
+        codec.decode_payload(&frame[4..]).ok()
+    };
+    let verdict = |r: &Result<(), tensor_chain::ChainError>, ordered: bool| -> &'static str {
+        match r {
+            Ok(()) => "ok",
+            Err(tensor_chain::ChainError::MessageValidationFailed { .. }) => "inverted",
+            Err(tensor_chain::ChainError::NumericOutOfBounds { field, .. }) if field == "block_count" => "too_many",
+            Err(tensor_chain::ChainError::NumericOutOfBounds { .. }) => if ordered { "chunk" } else { "other" },
+            Err(_) => "other",
+        }
+    };
+    let block = |rep: &mut Report, m: &mut Model, max_blocks: u64, from: u64, to: u64, stream: &str| {
+        let cfg = MessageValidationConfig { max_blocks_per_request: max_blocks, ..MessageValidationConfig::default() };
+        let v = CompositeValidator::new(cfg);
+        let msg = Message::BlockRequest(BlockRequest { from_height: from, to_height: to, requester_id: "node7".into() });
+        let Some(decoded) = through_wire(&msg) else {
+            rep.violation("tensor_chain.tcp.framing/block_request_does_not_round_trip", "encode -> decode_payload failed", json!({"from": from.to_string(), "to": to.to_string()}));
+            return;
+        };
+        let input = || json!({"max_blocks_per_request": max_blocks.to_string(), "from_height": from.to_string(), "to_height": to.to_string()});
+        match guarded(|| v.validate(&decoded, &"peer1".to_string())) {
+            Err(p) => rep.violation("tensor_chain.message_validation.block_request/panic", &p, input()),
+            Ok(res) => {
+                let got = verdict(&res, false);
+                rep.hit(&format!("limits.block.{got}"));
+                rep.compare(stream, input, got, &m.ask(&format!("vblock {max_blocks} {from} {to}")));
+                // the property: accepted => ordered and (to - from + 1) <= max, in true arithmetic
+                if res.is_ok() && (to < from || (u128::from(to) - u128::from(from) + 1) > u128::from(max_blocks)) {
+                    rep.violation("tensor_chain.message_validation.block_request/accepted_beyond_limit",
+                        "an accepted BlockRequest asks for more than max_blocks_per_request blocks (or an inverted range)", input());
+                }
+                if res.is_err() && to >= from && (u128::from(to) - u128::from(from) + 1) <= u128::from(max_blocks) {
+                    rep.violation("tensor_chain.message_validation.block_request/refused_within_limit",
+                        "an ordered range within the limit is refused", input());
+                }
+                let key = format!("{max_blocks}/{from}/{to}");
+                rep.case("limits", if to >= from { Some(&key) } else { None });
+            }
+        }
+    };
+    const MAX: u64 = u64::MAX;
+    // directed first: the ends of the height space and of the limit
+    for max_blocks in [1u64, 100, 1000, MAX - 2] {
+        for (from, to) in [
+            (0u64, MAX), (0, MAX - 1), (1, MAX), (MAX, MAX), (MAX - 1, MAX), (0, 0), (5, 4), (MAX, 0),
+            (0, max_blocks.saturating_sub(1)), (0, max_blocks), (1, max_blocks), (7, 7u64.saturating_add(max_blocks.saturating_sub(1))), (7, 7u64.saturating_add(max_blocks)),
+            (MAX - max_blocks.min(MAX - 1), MAX), (MAX - max_blocks.min(MAX - 1) + 1, MAX),
+        ] {
+            block(rep, m, max_blocks, from, to, "limits.block.directed");
+        }
+    }
+    let mut r = root.fork("limits");
+    for _ in 0..800 * scale {
+        let max_blocks = match r.below(4) { 0 => 1 + r.below(5), 1 => 1000, 2 => r.next_u64() >> r.below(60), _ => 100 };
+        let max_blocks = max_blocks.clamp(1, MAX - 2);
+        let from = match r.below(5) { 0 => 0, 1 => MAX - r.below(3), 2 => r.next_u64(), _ => r.below(2000) };
+        let to = match r.below(6) {
+            0 => MAX - r.below(3),
+            1 => from.wrapping_add(max_blocks).wrapping_sub(r.below(3)),
+            2 => from.saturating_add(r.below(2 * max_blocks.min(1 << 40) + 2)),
+            3 => r.next_u64(),
+            4 => from.saturating_sub(r.below(3)),
+            _ => from,
+        };
+        block(rep, m, max_blocks, from, to, "limits.block.random");
+    }
+    // snapshot chunk sizes
+    for _ in 0..200 * scale {
+        let max_chunk = match r.below(3) { 0 => 1 + r.below(64), 1 => 10 * 1024 * 1024, _ => r.next_u64() >> r.below(60) }.max(1);
+        let chunk = match r.below(5) { 0 => 0, 1 => max_chunk, 2 => max_chunk.saturating_add(1), 3 => r.next_u64(), _ => r.below(max_chunk.saturating_add(2)) };
+        let cfg = MessageValidationConfig { max_snapshot_chunk_size: max_chunk, ..MessageValidationConfig::default() };
+        let v = CompositeValidator::new(cfg);
+        let msg = Message::SnapshotRequest(SnapshotRequest { requester_id: "node7".into(), offset: r.next_u64(), chunk_size: chunk });
+        let Some(decoded) = through_wire(&msg) else { continue };
+        let input = || json!({"max_snapshot_chunk_size": max_chunk.to_string(), "chunk_size": chunk.to_string()});
+        match guarded(|| v.validate(&decoded, &"peer1".to_string())) {
+            Err(p) => rep.violation("tensor_chain.message_validation.snapshot_request/panic", &p, input()),
+            Ok(res) => {
+                let got = match &res {
+                    Ok(()) => "ok",
+                    Err(tensor_chain::ChainError::NumericOutOfBounds { .. }) => if chunk == 0 { "zero_chunk" } else { "chunk_too_large" },
+                    Err(_) => "other",
+                };
+                rep.hit(&format!("limits.snap.{got}"));
+                rep.compare("limits.snap", input, got, &m.ask(&format!("vsnap {max_chunk} {chunk}")));
+                if res.is_ok() && (chunk == 0 || chunk > max_chunk) {
+                    rep.violation("tensor_chain.message_validation.snapshot_request/accepted_beyond_limit", "an accepted SnapshotRequest asks for 0 or more than max_snapshot_chunk_size bytes", input());
+                }
+            }
+        }
+    }
+    let _ = verdict;
+}
+
 fn main() {
     let args = parse_args();
     let mut rep = Report::new(
@@ -851,6 +956,7 @@ fn main() {
     // ---- stream 6: sparse vectors and the embedding validator
     stream_sparse(&mut rep, &mut m, &root, scale);
     stream_vecformat(&mut rep, &mut m, &root, scale);
+    stream_limits(&mut rep, &mut m, &root, scale);
 
     rep.note("lossy codecs (tensor-train, quantisation) are not modelled in this stream; see DESIGN.md C20");
     rep.write(&args.out);
